@@ -559,6 +559,33 @@ def run(ctx):
     dist["mdvd_documents_compared_with_writer_model"] = len(mw)
     dist["mdvd_documents_differing_from_writer_model"] = ndiff
     dist["mdvd_documents_not_compared_lf_or_cr_inside_a_text_node"] = skipped
+    # the string-level SRT writer model (request 804, theorem C08_srt_roundtrip_string) against the real writer, on the
+    # generated single-language sets with SRT on the chain whose captions are clean lines (the model's domain: no blank
+    # at either end of a line, no empty line, no LF / CR inside, consecutive cues with different spans)
+    sw, sskip = [], 0
+    for (chain, langs, li, cues, texts, t1, t2) in work:
+        if len(langs) != 1 or 0 not in chain:
+            continue
+        pl = [mdvd_lines(sp) for sp in langs[0][1]]
+        if any(x is None or any((not l) or l != l.strip() for l in x) for x in pl) \
+                or any(a == b for a, b in zip(langs[0][0], langs[0][0][1:])):
+            sskip += 1
+            continue
+        sw.append((langs[0][0], pl, langs[0][1]))
+    sw = sw[:ctx.n(400, 4000)]
+    sdocs = []
+    for i in range(0, len(sw), 200):
+        sdocs += oracle_batch([(804, [[c[0], c[1], tx] for c, tx in zip(cu, txs)]) for (cu, txs, sp) in sw[i:i + 200]])
+    sdiff = 0
+    for (cu, txs, sp), d in zip(sw, sdocs):
+        real = impl.call(lambda: SRTWriter().write(build([(cu, sp)])))
+        if not (isinstance(real, Ok) and real.v == d):
+            sdiff += 1
+            res["disagreements"].append({"what": "SRT writer model document differs from the real writer's",
+                                         "cues": cu, "texts": txs, "model": d, "impl": show(real)})
+    dist["srt_documents_compared_with_writer_model"] = len(sw)
+    dist["srt_documents_differing_from_writer_model"] = sdiff
+    dist["srt_documents_not_compared_outside_the_clean_line_domain"] = sskip
     dist["chain_length_histogram"] = lens
     dist["pairs"] = len(pairs)
     dist["sets_per_pair"] = per_pair
@@ -589,10 +616,11 @@ def run(ctx):
                     "domain; a chain of model hops is the closed form; a SECOND chain of model hops returns the same "
                     "list (C08_chain_model_second_pass); the two model passes satisfy the oracle "
                     "(C08_chain_model_meets_oracle)",
-                    "string level, MicroDVD only: reader model o writer model (whole documents incl. text lines) = frames "
-                    "floored, text unchanged (C08_mdvd_roundtrip_string)"],
-        "correspondence_only": ["text survives every hop and the second pass (no theorem mentions text except the MicroDVD "
-                                "one)", "document level of SRT, WebVTT, DFXP, SAMI writer / reader pairs",
+                    "string level, MicroDVD and SRT: reader model o writer model (whole documents incl. text lines) = times "
+                    "floored, text lines unchanged (C08_mdvd_roundtrip_string, C08_srt_roundtrip_string); every chain of "
+                    "SRT / MicroDVD document hops: closed-form times AND text (C08_chain_doc_text)"],
+        "correspondence_only": ["text through WebVTT, DFXP, SAMI and outside the clean-line domain", "document level of WebVTT, DFXP, SAMI "
+                                "writer / reader pairs",
                                 "several languages inside one DFXP / SAMI document do not disturb each other (the set-level "
                                 "theorem converts each language on its own BY DEFINITION)",
                                 "the second pass of the real code"]}
